@@ -50,7 +50,10 @@ m = dict(
              dict(name="E2-symtwin", path="qverif/symtwin", serves_properties=engines.get("E2-symtwin", []),
                   kind_free_text="contract-based deductive verification: the unmodified source is executed in a twin import over "
                                  "exact symbolic scalars; every contract clause on every path is a VC over the reals "
-                                 "(normaliser + z3), for all inputs of one configuration")],
+                                 "(normaliser + z3), for all inputs of one configuration"),
+             dict(name="E0-enumeration", path="contracts/C17_enum.py", serves_properties=[p for k, v in engines.items() if k.startswith("E0") for p in v],
+                  kind_free_text="bounded stand-in: runtime contracts evaluated natively on the real code by complete enumeration of a finite "
+                                 "domain (the catalogues); never counted as proved")],
     checks=checks, not_applicable=na,
     notes="Exit codes of every check: 0 held | 1 violation (VIOLATION line) | 2 undecided | 3 checker fault. See DESIGN.md.")
 json.dump(m, open("MANIFEST.json", "w"), indent=1)
